@@ -12,6 +12,7 @@
 import CB.Lemmas.C02LimbDiv
 import CB.Lemmas.C02Rows
 import CB.Lemmas.C02Div3by2
+import CB.Lemmas.C02Knuth
 namespace CB.P02
 open CB CB.Div
 
@@ -71,5 +72,64 @@ theorem divRemLimb_exact_partial (H_recip : HRecip) {d : Nat} (hd0 : 0 < d) (hd 
     (divRemLimb u d).1 = toLimbs u.length (val u / d) ∧ (divRemLimb u d).2 = val u % d ∧
     remLimb u d = val u % d :=
   divRemLimb_spec H_recip hd0 hd hu
+
+/-- T02.5b the capped 3-by-2 quotient of the top limbs is the true digit or one more (Knuth 4.3.1
+    Theorem B, for a normalised two-limb divisor head `v2 ≥ B²/2`): `W = u3·K + wl`, `Y = v2·K + yl`,
+    `W < Y·B`.  Together with `div3by2_correct` this is the hypothesis `hest` of `knuth_row_exact`. -/
+theorem qhat_within_one {W Y K u3 v2 wl yl : Nat} (hW : W = u3 * K + wl) (hwl : wl < K)
+    (hY : Y = v2 * K + yl) (hyl : yl < K) (hv2 : HALF * B ≤ v2) (hWlt : W < Y * B) :
+    min (u3 / v2) (B - 1) = W / Y ∨ min (u3 / v2) (B - 1) = W / Y + 1 :=
+  CB.Div.qhat_within_one hW hwl hY hyl hv2 hWlt
+
+/-- T02.4 (done part) an iteration whose digit is forced to `0` by the `done` mask is a no-op:
+    the row is unchanged and no add-back / decrement is signalled. -/
+theorem knuth_row_done_noop {xs ys : List Nat} {xHi : Nat} (hx : WF xs) (hy : WF ys)
+    (hl : xs.length = ys.length) (hxHi : xHi < B) : knuthRow xs ys xHi 0 = (xs, 0) :=
+  knuthRow_zero hx hy hl hxHi
+
+/-- the normalisation shift `Uint::shl_limb(s)`, `0 ≤ s < 64` (masks make `s = 0` the identity):
+    exact value with the shifted-out carry. -/
+theorem shlLimb_exact {a : List Nat} {s : Nat} (hs : s < 64) (ha : WF a) :
+    val (shlLimb a s).1 + B ^ a.length * (shlLimb a s).2 = val a * 2 ^ s ∧
+    WF (shlLimb a s).1 ∧ (shlLimb a s).1.length = a.length ∧ (shlLimb a s).2 < 2 ^ s :=
+  shlLimb_spec hs ha
+
+/-- T02.6 (one-limb case, the static `LIMBS == 1` short circuit of `div_rem`) -/
+theorem divRemCt_one_limb_partial (H_recip : HRecip) {n d : Nat} (hn : n < B) (hd0 : 0 < d) (hd : d < B) :
+    divRemCt [n] [d] = ([n / d], [n % d]) := by
+  have hu : WF [n] := WF_cons.mpr ⟨hn, WF_nil⟩
+  have ⟨h1, h2, _⟩ := divRemLimb_spec H_recip hd0 hd hu
+  have hv : val [n] = n := by simp [val]
+  have hq : n / d < B := Nat.lt_of_le_of_lt (Nat.div_le_self _ _) hn
+  have e : divRemCt [n] [d] = ((divRemLimb [n] d).1, [(divRemLimb [n] d).2]) := by
+    simp [divRemCt]
+  rw [e, h1, h2, hv]
+  simp [toLimbs, Nat.mod_eq_of_lt hq]
+
+/-- T02.8a `checked_div` / `checked_rem` are `none` exactly for a zero divisor, and otherwise the
+    quotient / remainder of `div_rem`. -/
+theorem checked_div_none_iff (n d : List Nat) : checkedDiv n d = none ↔ val d = 0 := by
+  unfold checkedDiv; split <;> simp_all
+theorem checked_rem_none_iff (n d : List Nat) : checkedRem n d = none ↔ val d = 0 := by
+  unfold checkedRem; split <;> simp_all
+theorem checked_forms_some {n d : List Nat} (h : val d ≠ 0) :
+    checkedDiv n d = some (divRemCt n d).1 ∧ checkedRem n d = some (divRemCt n d).2 := by
+  simp [checkedDiv, checkedRem, h]
+
+/-- T02.8b the thin forms (`rem`, `wrapping_div`, `/`, `%`, `/=`, `%=`, `Wrapping`, `rem_vartime`,
+    `wrapping_div_vartime`, `wrapping_rem_vartime`, `DivVartime`) are projections of the two
+    division routines in the model (the harness checks that every such Rust form returns the
+    primary result: the trailing `ok`). -/
+theorem thin_forms (n d : List Nat) :
+    urem n d = (divRemCt n d).2 ∧ wrappingDiv n d = (divRemCt n d).1 ∧
+    remVartime n d = (divRemVartime n d).2 ∧ wrappingDivVartime n d = (divRemVartime n d).1 :=
+  ⟨rfl, rfl, rfl, rfl⟩
+
+/-- T02.8c the boxed constant-time forms reject (panic on) a divisor of different precision and
+    otherwise run the same routine as the fixed type. -/
+theorem boxedDivRem_spec (n d : List Nat) :
+    (n.length = d.length → boxedDivRem n d = some (divRemCt n d)) ∧
+    (n.length ≠ d.length → boxedDivRem n d = none) := by
+  unfold boxedDivRem; constructor <;> intro h <;> simp [h]
 
 end CB.P02
